@@ -152,6 +152,14 @@ def main(argv):
             traceback.print_exc()
             return 2
         ctx.write_evidence()
+        # a thorough-tier trace can be several GB: it has been judged and reported, keep the disk for the next check
+        for name in ('trace.ndjson', 'xtrace.ndjson'):
+            tp = os.path.join(ctx.workdir, name)
+            try:
+                if os.path.getsize(tp) > 500 * 1000 * 1000:
+                    os.remove(tp)
+            except OSError:
+                pass
         if ctx.violations:
             return 1
         return 0
